@@ -25,8 +25,8 @@ const WK: [&str; NW] = ["w0", "w1", "w2", "w3", "w4", "w5"];
 
 pub struct EventWorld<M: RawMutex + 'static> {
     futs: Arena<GenericWaitForEventFuture<'static, M>>,
-    prim_ref: &'static GenericManualResetEvent<M>,
-    root: Option<Box<GenericManualResetEvent<M>>>,
+    prim_ref: Option<&'static GenericManualResetEvent<M>>,
+    root: Option<Owned<GenericManualResetEvent<M>>>,
     prim_alive: bool,
     // model
     is_set: bool,
@@ -58,13 +58,13 @@ impl<M: RawMutex + 'static> EventWorld<M> {
         if !self.prim_alive {
             return;
         }
-        let s = self.prim_ref.is_set();
+        let s = self.prim_ref.unwrap().is_set();
         if s != self.is_set {
             env.fail("C14", "is-set", format!("is_set() = {} but the last set/reset left it {}", s, self.is_set), true);
             return;
         }
         let futs = &self.futs;
-        let snap = self.prim_ref.verif_snapshot(&mut |addr| futs.find(addr).is_some());
+        let snap = self.prim_ref.unwrap().verif_snapshot(&mut |addr| futs.find(addr).is_some());
         let resolve = |addr: usize| futs.find(addr).map(|id| (id, 0u8));
         let orders = oracle::c01_membership(env, &snap, &resolve, &[QueueKind { name: "waiters", kinds: &[0] }]);
         if env.has_fatal() {
@@ -87,15 +87,14 @@ impl<M: RawMutex + 'static> EventWorld<M> {
 impl<M: RawMutex + 'static> World for EventWorld<M> {
     fn new(cfg: &Cfg, _env: &mut Env) -> Self {
         let is_set = cfg_get(cfg, "initial_set", 0) != 0;
-        let root = Box::new(GenericManualResetEvent::<M>::new(is_set));
-        let prim_ref: &'static GenericManualResetEvent<M> = unsafe { &*(&*root as *const _) };
+        let (root, prim_ref) = Owned::new(GenericManualResetEvent::<M>::new(is_set));
         let mut weights = [0u32; NW];
         for (i, w) in weights.iter_mut().enumerate() {
             *w = cfg_get(cfg, WK[i], 10) as u32;
         }
         EventWorld {
             futs: Arena::new(),
-            prim_ref,
+            prim_ref: Some(prim_ref),
             root: Some(root),
             prim_alive: true,
             is_set,
@@ -161,7 +160,7 @@ impl<M: RawMutex + 'static> World for EventWorld<M> {
         match op.k {
             OP_NEW => {
                 if self.prim_alive && !self.used[id] {
-                    let e = self.prim_ref;
+                    let e = self.prim_ref.unwrap();
                     if let Some(f) = env.call("wait", || e.wait()) {
                         self.used[id] = true;
                         self.futs.put(id, f);
@@ -199,7 +198,7 @@ impl<M: RawMutex + 'static> World for EventWorld<M> {
             }
             OP_SET => {
                 if self.prim_alive {
-                    let e = self.prim_ref;
+                    let e = self.prim_ref.unwrap();
                     if env.call("set", || e.set()).is_some() {
                         self.is_set = true;
                         let mut n = 0;
@@ -220,7 +219,7 @@ impl<M: RawMutex + 'static> World for EventWorld<M> {
             }
             OP_RESET => {
                 if self.prim_alive {
-                    let e = self.prim_ref;
+                    let e = self.prim_ref.unwrap();
                     if env.call("reset", || e.reset()).is_some() {
                         if self.is_set && env.live.iter().any(|f| env.slots[*f].st == St::Pending && self.latched[*f]) {
                             env.fault("reset_before_woken_waiter_polled");
@@ -234,6 +233,7 @@ impl<M: RawMutex + 'static> World for EventWorld<M> {
             }
             OP_DROP_PRIM => {
                 if self.prim_alive && env.live.is_empty() {
+                    self.prim_ref = None;
                     let root = self.root.take();
                     env.call("drop event", || drop(root));
                     self.prim_alive = false;
